@@ -66,6 +66,24 @@ CHECKS["C14"] = dict(
   text="Command frames written to the transport must parse under an independent PN53x/ACR122 CCID/RC-S380 frame model for every command and payload length (both sides of the 254/255 switch); a mutated response may only be accepted if the independent validator accepts it with the same data, otherwise IOError; CRC helpers equal the reference for all messages <= 2 (quick) / <= 3 (thorough) bytes and random longer ones, single-bit flips are rejected, the drivers' Type 2 Tag CRC path is checked.",
   note=TRUST + "Reference models vlib/ref_crc.py (cross-checked bitwise vs bytewise and against the Annex B vectors) and vlib/ref_pn53x.py. Built by a sub-agent, reviewed and re-run by the coordinator.")
 
+CHECKS["C05"] = dict(
+  category="exploration",
+  technique="model-based stateful property testing (Hypothesis-generated operation histories interpreted against a sliding-window wire monitor), bounded-exhaustive short histories, scheduled threads under a virtual scheduler",
+  text="Two real LogicalLinkControllers linked by a harness pump (collect -> encode -> independent decode -> decode -> dispatch): generated histories of send/recv/poll/busy/exchange/close with RW 0..15, MIU mixes and aggregation; every history of length <=4 (quick) / <=6 (thorough) over a reduced alphabet for RW in {1,2}; blocking application threads over two full stacks with generated schedules. Wire monitor: N(S) consecutive, window never exceeded, N(R) never beyond what was received, no FRMR, payload <= MIU, EMSGSIZE for oversize; recv sequences = prefix / all of accepted sends; no stuck thread while the link lives.",
+  note=TRUST + "vlib/ref_window.py and vlib/llcpair.py are trusted; threads explored at synchronisation-point granularity. Known finding C05-accept-send-before-cc excluded by class. Built by a sub-agent, reviewed and re-run by the coordinator.")
+
+CHECKS["C10"] = dict(
+  category="exploration",
+  technique="model-based stateful property testing of LogicalLinkController.collect() + exhaustive enumeration of MIU x SDRES backlog",
+  text="Generated operation lists fill the send queues in every combination (UI on several sockets, I PDUs, pending acks, CONNECT/CC/DM/DISC/FRMR, SDREQ from resolve(), SDRES backlogs from incoming SNL) for remote MIU 128..2175 incl. non-multiples of 4; each collected frame is measured with the independent codec: information field <= remote link MIU, payloads <= receiver MIU, len(pdu)==len(encoding), receiver dispatches exactly the dequeued PDUs in order. Thorough: every MIU x aggregation on/off x backlog 0..600.",
+  note=TRUST + "vlib/ref_llcp.py measures frames independently. Raw access point sockets excluded (by the property). Built by a sub-agent, reviewed and re-run by the coordinator.")
+
+CHECKS["C17"] = dict(
+  category="exploration",
+  technique="model-based stateful property testing against a reference address-table model",
+  text="Generated histories of socket/bind/listen/connect/accept/sendto/recvfrom/resolve/close on two linked controllers (up to 150 operations so that the named and dynamic address ranges are exhausted and reused) are checked step by step against an AddrTable model: bind outcome and errno class, address uniqueness, release on last close, resolve and connect-by-name reach exactly the socket bound under the name, datagrams are delivered only to the addressed socket with payload, boundaries and source intact.",
+  note=TRUST + "AddrTable model written from the Socket.bind docstring and LLCP 1.3 4.3; leniencies (resolver cache, names in limbo) are stated in the module. Built by a sub-agent, reviewed and re-run by the coordinator.")
+
 PENDING_REASON = "not claimed yet: its generated-input check (DESIGN.md section 3) is still under construction in this session; nothing is asserted about it"
 
 def main():
